@@ -144,6 +144,11 @@ pub fn roundtrip(ctx: &mut Ctx, a: &Value) -> (String, i64) {
     let compact = a["compact"].as_bool().unwrap_or(false);
     let r = catch_unwind(AssertUnwindSafe(|| -> Result<(AnnotationStore, String, String), StamError> {
         match (format.as_str(), layout.as_str()) {
+            // C03: compaction in memory (reindex() consumes the store)
+            ("reindex", _) => {
+                let old = std::mem::replace(&mut ctx.store, AnnotationStore::new(Config::default()));
+                Ok((old.reindex(), String::new(), String::new()))
+            }
             ("json", "string") => {
                 let cfg = json_config(compact);
                 let s1 = ctx.store.to_json_string(&cfg)?;
